@@ -12,6 +12,13 @@ from .common import (GEOM, sigma_xy, sigma_dual, sigma_swap, check_closed, check
                      call_name, is_eps_atom)
 
 R = "Rectangle."
+
+
+def wanted(ctx: Ctx, *short: str) -> bool:
+    """a section of a rule is evaluated unless the rule runs on behalf of another property (common.support) that does
+    not use any of the functions the section is about"""
+    only = getattr(ctx, "only_functions", None)
+    return only is None or any(R + q in only for q in short)
 from framelint.canon import canon_function as _canon_function_expanded
 
 def canon_function(fi, model=None, opts=None):   # rules of this file match shapes: look through every local
@@ -25,9 +32,12 @@ def canon_function(fi, model=None, opts=None):   # rules of this file match shap
 def r1(ctx: Ctx) -> None:
     s = sigma_xy()
     for q in ["bounding_box", "point_inside", "is_inside", "touches", "area_overlap", "__mul__"]:
-        check_closed(ctx, ctx.func(GEOM, R + q), s, "sigma_xy")
-    check_mirror(ctx, ctx.func(GEOM, R + "split_horizontal"), ctx.func(GEOM, R + "split_vertical"), s, "sigma_xy")
-    check_mirror(ctx, ctx.func(GEOM, R + "x_cuttable"), ctx.func(GEOM, R + "y_cuttable"), s, "sigma_xy")
+        if wanted(ctx, q):
+            check_closed(ctx, ctx.func(GEOM, R + q), s, "sigma_xy")
+    if wanted(ctx, "split_horizontal", "split_vertical", "split"):
+        check_mirror(ctx, ctx.func(GEOM, R + "split_horizontal"), ctx.func(GEOM, R + "split_vertical"), s, "sigma_xy")
+    if wanted(ctx, "x_cuttable", "y_cuttable"):
+        check_mirror(ctx, ctx.func(GEOM, R + "x_cuttable"), ctx.func(GEOM, R + "y_cuttable"), s, "sigma_xy")
 
 
 @rule("C18", "R2.bound-duality", "CLOSED",
@@ -36,7 +46,8 @@ def r1(ctx: Ctx) -> None:
 def r2(ctx: Ctx) -> None:
     s = sigma_dual()
     for q in ["point_inside", "is_inside", "touches", "area_overlap"]:
-        check_closed(ctx, ctx.func(GEOM, R + q), s, "sigma_dual")
+        if wanted(ctx, q):
+            check_closed(ctx, ctx.func(GEOM, R + q), s, "sigma_dual")
 
 
 @rule("C18", "R3.operand-symmetry", "CLOSED",
@@ -44,12 +55,14 @@ def r2(ctx: Ctx) -> None:
 def r3(ctx: Ctx) -> None:
     s = sigma_swap()
     for q in ["area_overlap", "touches"]:
-        check_closed(ctx, ctx.func(GEOM, R + q), s, "sigma_swap")
+        if wanted(ctx, q):
+            check_closed(ctx, ctx.func(GEOM, R + q), s, "sigma_swap")
     # __mul__: attributes come from the left operand (duplicate of self) -- everything else is symmetric
     dup_self = ("c", ("a", ("self",), "duplicate"), (), ())
     dup_other = ("c", ("a", ("p", 0), "duplicate"), (), ())
-    check_closed(ctx, ctx.func(GEOM, R + "__mul__"), s, "sigma_swap(modulo duplicate receiver)",
-                 post=lambda c: Sigma(raw_subst={dup_other: dup_self}).apply(c))
+    if wanted(ctx, "__mul__"):
+        check_closed(ctx, ctx.func(GEOM, R + "__mul__"), s, "sigma_swap(modulo duplicate receiver)",
+                     post=lambda c: Sigma(raw_subst={dup_other: dup_self}).apply(c))
 
 
 def _ret_of(block: tuple) -> S:
@@ -59,11 +72,7 @@ def _ret_of(block: tuple) -> S:
     return None
 
 
-@rule("C18", "R4.strictness", "PRED",
-      "strictness conventions: overlap == area_overlap > area epsilon; empty intersection tests of area_overlap "
-      "and __mul__ coincide; cuttable refuses coordinates on or outside the border; sliver test compares the "
-      "thinner piece with ratio * other side", floor=5)
-def r4(ctx: Ctx) -> None:
+def _r4_overlap(ctx: Ctx) -> None:
     m = ctx.model
     # (a) overlap(r) == area_overlap(r) > area_epsilon
     fo = ctx.func(GEOM, R + "overlap")
@@ -83,6 +92,9 @@ def r4(ctx: Ctx) -> None:
                    "overlap() is not 'self.area_overlap(r) > Rectangle.area_epsilon()' (strict, area tolerance)",
                    lineno=fo.node.lineno)
 
+
+def _r4_empty(ctx: Ctx) -> None:
+    m = ctx.model
     # (b) emptiness of area_overlap and __mul__ agree: both return the empty answer exactly when
     #     not(max(ll) < min(ur)) on either axis
     fa, fm = ctx.func(GEOM, R + "area_overlap"), ctx.func(GEOM, R + "__mul__")
@@ -119,6 +131,10 @@ def r4(ctx: Ctx) -> None:
             ctx.report(fa.where, f"empty-guard-shape {show(d)}",
                        "the empty-intersection test is not 'max(low bounds) >= min(high bounds)'", lineno=fa.node.lineno)
 
+
+def _r4_cuttable(ctx: Ctx) -> None:
+    m = ctx.model
+    from framelint.peval import value_expr
     # (c) cuttable: strictly inside + sliver threshold
     for q, axis, other in [("x_cuttable", "x", "h"), ("y_cuttable", "y", "w")]:
         f = ctx.func(GEOM, R + q)
@@ -148,6 +164,19 @@ def r4(ctx: Ctx) -> None:
                        f"{q}: the sliver test is not 'min(cut - low, high - cut) > ratio * {other}'", lineno=f.node.lineno)
 
 
+@rule("C18", "R4.strictness", "PRED",
+      "strictness conventions: overlap == area_overlap > area epsilon; empty intersection tests of area_overlap "
+      "and __mul__ coincide; cuttable refuses coordinates on or outside the border; sliver test compares the "
+      "thinner piece with ratio * other side", floor=5)
+def r4(ctx: Ctx) -> None:
+    if wanted(ctx, "overlap"):
+        _r4_overlap(ctx)
+    if wanted(ctx, "area_overlap", "__mul__", "overlap"):
+        _r4_empty(ctx)
+    if wanted(ctx, "x_cuttable", "y_cuttable"):
+        _r4_cuttable(ctx)
+
+
 def _ctor_key_fields(ctx: Ctx) -> dict[str, str]:
     """KW_* key -> private field stored by Rectangle.__init__ under that key."""
     f = ctx.func(GEOM, R + "__init__")
@@ -170,6 +199,8 @@ def _ctor_key_fields(ctx: Ctx) -> dict[str, str]:
       "duplicate() hands every constructor-settable state attribute of the rectangle to the copy (allow-list: name); "
       "split pieces, grid cells and intersections are made by duplicate(), never by a bare constructor", floor=5)
 def r5(ctx: Ctx) -> None:
+    if not wanted(ctx, "duplicate", "split_horizontal", "split_vertical", "split", "rectangle_grid", "__mul__"):
+        return
     keyfield = _ctor_key_fields(ctx)
     ctx.require(len(keyfield) >= 5, f"Rectangle.__init__ key->field table too small: {keyfield}")
     cls = ctx.model.cls(GEOM, "Rectangle")
@@ -211,6 +242,8 @@ def r5(ctx: Ctx) -> None:
                        f"duplicate() passes {passed[k]} under {k} but the constructor stores {k} in {fld}",
                        lineno=dup.node.lineno)
     for q in ["split_horizontal", "split_vertical", "rectangle_grid", "__mul__"]:
+        if not wanted(ctx, q) and not (q.startswith("split_") and wanted(ctx, "split")):
+            continue
         f = ctx.func(GEOM, R + q)
         ctor = [c for c in walk_own(f.node) if isinstance(c, ast.Call) and call_name(c) == "Rectangle"]
         dups = [c for c in walk_own(f.node) if isinstance(c, ast.Call) and call_name(c) == "duplicate"]
@@ -264,12 +297,7 @@ def _half(s):
     return to_poly(s).scale(__import__("fractions").Fraction(1, 2))
 
 
-@rule("C18", "R6.tiling-arithmetic", "LAW",
-      "symbolic (polynomial normal form) tiling laws: the two pieces of a split have the parent's other dimension, "
-      "widths adding up to the parent's, and abut exactly at the cut and at the parent's borders; grid cells have "
-      "size parent/count, start at the low border, are contiguous and end at the high border; the intersection "
-      "rectangle spans [max lows, min highs]", floor=20)
-def r6(ctx: Ctx) -> None:
+def _r6_splits(ctx: Ctx) -> None:
     for q, cx, cy, w, h in [("split_horizontal", SELF_CX, SELF_CY, SELF_W, SELF_H),
                             ("split_vertical", SELF_CY, SELF_CX, SELF_H, SELF_W)]:
         fi = ctx.func(GEOM, R + q)
@@ -318,6 +346,8 @@ def r6(ctx: Ctx) -> None:
             ctx.report(fi.where, "split-cut-inside " + " | ".join(sorted(show(x) for x in need - asserted)),
                        f"{q}: the cut is not asserted to lie strictly inside the rectangle", lineno=fi.node.lineno)
 
+
+def _r6_dispatch(ctx: Ctx) -> None:
     # split(): dispatch on the longer side
     fs = ctx.func(GEOM, R + "split")
     cs = canon_function(fs, ctx.model)
@@ -333,6 +363,8 @@ def r6(ctx: Ctx) -> None:
         ctx.report(fs.where, "split-dispatch " + "; ".join(show(x) for x in cs),
                    "split() does not halve the longer side (split_vertical iff h > w)", lineno=fs.node.lineno)
 
+
+def _r6_grid(ctx: Ctx) -> None:
     # rectangle_grid
     fg = ctx.func(GEOM, R + "rectangle_grid")
     names, geo, ret, block, cn = _piece_geometry(ctx, fg)
@@ -381,6 +413,8 @@ def r6(ctx: Ctx) -> None:
         if contains(cell_c, other) or contains(cell_s, other):
             ctx.report(fg.where, f"grid-axis-mix {axis}", f"rectangle_grid: the {axis} geometry of a cell depends on the wrong loop index", lineno=fg.node.lineno)
 
+
+def _r6_mul(ctx: Ctx) -> None:
     # __mul__: intersection spans [max lows, min highs]
     fm = ctx.func(GEOM, R + "__mul__")
     names, geo, ret, block, _ = _piece_geometry(ctx, fm)
@@ -398,6 +432,8 @@ def r6(ctx: Ctx) -> None:
         check_law(ctx, fm, f"intersection {axis}: low side == max of the operands' low sides", (to_poly(ce[2][ci]) - _half(sh[2][ci])).to_s(), mx)
         check_law(ctx, fm, f"intersection {axis}: high side == min of the operands' high sides", (to_poly(ce[2][ci]) + _half(sh[2][ci])).to_s(), mn)
 
+
+def _r6_overlap_area(ctx: Ctx) -> None:
     # area_overlap value == product of the overlap extents
     fa = ctx.func(GEOM, R + "area_overlap")
     ca = normalize(Canon(fa, ctx.model, CanonOptions(inline_properties={"Rectangle.bounding_box"})).function(), keep_identity=False)
@@ -435,6 +471,24 @@ def r6(ctx: Ctx) -> None:
     check_law(ctx, far, "area == w * h", val, (to_poly(w_) * to_poly(h_)).to_s())
 
 
+@rule("C18", "R6.tiling-arithmetic", "LAW",
+      "symbolic (polynomial normal form) tiling laws: the two pieces of a split have the parent's other dimension, "
+      "widths adding up to the parent's, and abut exactly at the cut and at the parent's borders; grid cells have "
+      "size parent/count, start at the low border, are contiguous and end at the high border; the intersection "
+      "rectangle spans [max lows, min highs]", floor=20)
+def r6(ctx: Ctx) -> None:
+    if wanted(ctx, "split_horizontal", "split_vertical", "split"):
+        _r6_splits(ctx)
+    if wanted(ctx, "split"):
+        _r6_dispatch(ctx)
+    if wanted(ctx, "rectangle_grid"):
+        _r6_grid(ctx)
+    if wanted(ctx, "__mul__"):
+        _r6_mul(ctx)
+    if wanted(ctx, "area_overlap", "overlap", "area"):
+        _r6_overlap_area(ctx)
+
+
 @rule("C18", "R7.containment-definition", "PRED",
       "is_inside and point_inside are the coordinate comparisons of plane geometry (closed on all four sides), touches "
       "the same with the distance tolerance; none of them goes through intersection / equality of rectangles (which also "
@@ -448,19 +502,22 @@ def r7(ctx: Ctx) -> None:
     f = ctx.func(GEOM, R + "is_inside")
     c = canon_function(f, ctx.model)
     want = mk_and([mk_not(mk_lt(bb(s_, "ll", a), bb(o, "ll", a))) for a in "xy"] + [mk_not(mk_lt(bb(o, "ur", a), bb(s_, "ur", a))) for a in "xy"])
-    ctx.site(f.where, "is_inside == ll >= other.ll and ur <= other.ur on both axes")
-    if c != (("ret", want),):
+    if wanted(ctx, "is_inside"):
+        ctx.site(f.where, "is_inside == ll >= other.ll and ur <= other.ur on both axes")
+    if wanted(ctx, "is_inside") and c != (("ret", want),):
         ctx.report(f.where, "is-inside-definition " + "; ".join(show(x) for x in c)[:200], "is_inside is not the four closed comparisons of the bounding boxes", lineno=f.node.lineno)
     f = ctx.func(GEOM, R + "point_inside")
     c = canon_function(f, ctx.model)
     want = mk_and([mk_not(mk_lt(("a", o, a), bb(s_, "ll", a))) for a in "xy"] + [mk_not(mk_lt(bb(s_, "ur", a), ("a", o, a))) for a in "xy"])
-    ctx.site(f.where, "point_inside == ll <= p <= ur on both axes")
-    if c != (("ret", want),):
+    if wanted(ctx, "point_inside"):
+        ctx.site(f.where, "point_inside == ll <= p <= ur on both axes")
+    if wanted(ctx, "point_inside") and c != (("ret", want),):
         ctx.report(f.where, "point-inside-definition " + "; ".join(show(x) for x in c)[:200], "point_inside is not ll <= p <= ur on both axes (closed)", lineno=f.node.lineno)
     f = ctx.func(GEOM, R + "touches")
     c = canon_function(f, ctx.model)
     eps = ("c", ("a", ("g", "Rectangle"), "distance_epsilon"), (), ())
     want = mk_and([mk_not(mk_lt((to_poly(bb(b_, "ur", a)) + to_poly(eps)).to_s(), bb(a_, "ll", a))) for a in "xy" for a_, b_ in ((s_, o), (o, s_))])
-    ctx.site(f.where, "touches == the bounding boxes overlap or abut within the distance tolerance, on both axes")
-    if c != (("ret", want),):
+    if wanted(ctx, "touches"):
+        ctx.site(f.where, "touches == the bounding boxes overlap or abut within the distance tolerance, on both axes")
+    if wanted(ctx, "touches") and c != (("ret", want),):
         ctx.report(f.where, "touches-definition " + "; ".join(show(x) for x in c)[:200], "touches is not 'll <= other.ur + eps' for both operands on both axes", lineno=f.node.lineno)
